@@ -571,6 +571,7 @@ func cmdRun(args []string) int {
 	sort.Slice(viols, func(i, j int) bool { return viols[i].Seed < viols[j].Seed })
 	for _, v := range viols {
 		if seen[v.Sig] {
+			os.Remove(v.Replay) // another worker's replay of the same signature is reported
 			continue
 		}
 		seen[v.Sig] = true
